@@ -37,11 +37,11 @@ func (l List) String() string {
 	return sb.String()
 }
 
-func I(x *big.Int) V   { return Int{x} }
-func I64(x int64) V    { return Int{big.NewInt(x)} }
-func B(b []byte) V     { return Bytes(b) }
-func A(s string) V     { return Atom(s) }
-func L(vs ...V) V      { return List(vs) }
+func I(x *big.Int) V { return Int{x} }
+func I64(x int64) V  { return Int{big.NewInt(x)} }
+func B(b []byte) V   { return Bytes(b) }
+func A(s string) V   { return Atom(s) }
+func L(vs ...V) V    { return List(vs) }
 func Bool(b bool) V {
 	if b {
 		return Atom("true")
@@ -167,12 +167,12 @@ func ParseAll(s string) ([]V, error) {
 }
 
 // accessors (panic on shape errors: the caller recovers and reports a bad case)
-func AsInt(v V) *big.Int   { return v.(Int).X }
-func AsBytes(v V) []byte   { return []byte(v.(Bytes)) }
-func AsList(v V) List      { return v.(List) }
-func AsAtom(v V) string    { return string(v.(Atom)) }
-func AsInt64(v V) int64    { return v.(Int).X.Int64() }
-func AsBool(v V) bool      { return string(v.(Atom)) == "true" }
+func AsInt(v V) *big.Int { return v.(Int).X }
+func AsBytes(v V) []byte { return []byte(v.(Bytes)) }
+func AsList(v V) List    { return v.(List) }
+func AsAtom(v V) string  { return string(v.(Atom)) }
+func AsInt64(v V) int64  { return v.(Int).X.Int64() }
+func AsBool(v V) bool    { return string(v.(Atom)) == "true" }
 func AsInts(v V) []*big.Int {
 	l := v.(List)
 	out := make([]*big.Int, len(l))
